@@ -442,7 +442,11 @@ func (g *randomGen) fillMsg(b *msgBuilder, file, depth int, proto2 bool) {
 				f.Options = &descriptorpb.FieldOptions{Packed: proto.Bool(false)}
 			}
 		case 3: // message
-			if ref, ok := g.pickMsg(file); ok {
+			pick := g.pickMsg
+			if g.forceImports && g.opts.Tag == "" {
+				pick = g.pickForeignMsg // files that see several packages use their types
+			}
+			if ref, ok := pick(file); ok {
 				f := b.message(name(i), nextNum(), ref)
 				if t.Chance("rs.repmsg", 1, 3) {
 					f.Label = descriptorpb.FieldDescriptorProto_LABEL_REPEATED.Enum()
@@ -463,7 +467,11 @@ func (g *randomGen) fillMsg(b *msgBuilder, file, depth int, proto2 bool) {
 				s := scalarTypes[t.Draw("rs.scalar", len(scalarTypes))]
 				b.mapField(n, nextNum(), k, s.t, "")
 			case 1:
-				if ref, ok := g.pickMsg(file); ok {
+				pick := g.pickMsg
+				if g.forceImports && g.opts.Tag == "" {
+					pick = g.pickForeignMsg
+				}
+				if ref, ok := pick(file); ok {
 					b.mapField(n, nextNum(), k, descriptorpb.FieldDescriptorProto_TYPE_MESSAGE, ref)
 				}
 			case 2:
